@@ -75,12 +75,14 @@ def run(ctx):
     # exhaustion hands over a key without seed bytes
     rng = ctx.rng
     cases = []
-    for H in ALL_H:
+    shapes = [[(3, 1), (2, 1)], [(2, 5)], [(2, 5)] * 7, [(2, 6), (2, 6), (2, 6), (2, 1)], [(2, 5)] * 8, [(3, 1)] * 8, [(2, 5), (2, 6), (2, 5), (2, 6), (2, 1)]]
+    for i, ps in enumerate(shapes):
+        H = ALL_H[i % 6]
         n = HASHES[H]
-        ps = [(3, 1), (2, 1)]
         seed = bytes([0xA5]) * n
-        cases.append(Case(sign_line(H, sk_blob(H, ps, seed, 15), b"last"), "exhaust/last", {"n": n}))
-        cases.append(Case(trysign_line(H, sk_blob(H, ps, seed, 15), b"last"), "exhaust/last-inmem", {"n": n}))
+        last = (1 << sum(heights_of(ps))) - 1
+        cases.append(Case(sign_line(H, sk_blob(H, ps, seed, last), b"last"), "exhaust/last/total%d" % sum(heights_of(ps)), {"n": n}))
+        cases.append(Case(trysign_line(H, sk_blob(H, ps, seed, last), b"last"), "exhaust/last-inmem/total%d" % sum(heights_of(ps)), {"n": n}))
     for c, a, b in ctx.both(cases, None):
         f = fields(a)
         k = unhx(f.get("cb", f.get("sk", "-")))
